@@ -23,7 +23,7 @@ QUICK = [
     # reconsider_all_jobs() (public debugging aid) as one more driver choice in every unfinished state
     ("n3c", "explore", ["exh", "n=3", "levels=f1c/dbf1c"], {"C05", "C06", "C17"}, True, None),
     ("n3uses", "explore", ["exh", "n=3", "uses=none", "levels=f1/dbne"], {"C01", "C03", "C04", "C11", "C12"}, True, None),
-    ("n3stamp", "explore", ["exh", "n=3", "cmp=both", "levels=f1a/dbf1a/-"], {"C15", "C04", "C09", "C12"}, True, None),
+    ("n3stamp", "explore", ["exh", "n=3", "cmp=both", "levels=f1a/dbf1a/-"], {"C15", "C04", "C09", "C11", "C12"}, True, None),
     ("n3stamp4", "explore", ["exh", "n=3", "cmp=both", "levels=-/dn/dn/dn", "steps=0"], {"C15", "C04", "C12"}, True, None),
     ("n3flaky", "explore", ["exh", "n=3", "cmp=both", "levels=-/bdk/-"], {"C16", "C06", "C08"}, True, None),
     ("n3decl", "explore", ["exh", "n=3", "levels=p5/dbnep5"], {"C14"}, True, None),
@@ -56,7 +56,7 @@ THOROUGH = [
     ("n3m", "explore", ["exh", "n=3", "levels=f1am/dbnef1am"], {"C20"}, True, None),
     ("n3c", "explore", ["exh", "n=3", "levels=f1ac/dbnef1ac"], {"C05", "C06", "C17"}, True, None),
     ("n3uses", "explore", ["exh", "n=3", "uses=mix", "levels=f1/dbne/db"], {"C01", "C03", "C04", "C11", "C12"}, True, None),
-    ("n3stamp", "explore", ["exh", "n=3", "cmp=both", "levels=f1a/dbnef1a/db"], {"C15", "C04", "C09", "C12"}, True, None),
+    ("n3stamp", "explore", ["exh", "n=3", "cmp=both", "levels=f1a/dbnef1a/db"], {"C15", "C04", "C09", "C11", "C12"}, True, None),
     ("n3stamp4", "explore", ["exh", "n=3", "cmp=both", "levels=-/dbn/dbn/dbn", "steps=0"], {"C15", "C04", "C12"}, True, None),
     ("n3flaky", "explore", ["exh", "n=3", "cmp=both", "levels=-/bdkf1/k"], {"C16", "C06", "C08"}, True, None),
     ("n3decl", "explore", ["exh", "n=3", "levels=p9/dbnep9"], {"C14"}, True, None),
